@@ -49,7 +49,7 @@ func (g *Group) render(f *File, w io.Writer, s *Statement) error {
 		prev := s.previous(g)
 		grp, isGrp := prev.(*Group)
 		tkn, isTkn := prev.(token)
-		if isGrp && grp.name == "case" || isTkn && tkn.content == "default" {
+		if isGrp && grp != nil && grp.name == "case" || isTkn && tkn.content == "default" {
 			// the braces are dropped for this render only; the group itself must not
 			// change, or it renders differently the next time
 			open = ""
